@@ -15,14 +15,32 @@ def is_err_exit(blk):
     return False
 
 
+# Functions that do not exist on the reference tree (NEW helpers, see core.inline_new_helpers): {id: [MIR bodies]}, filled by World.mir_index().
+# A call of a new helper counts as a call satisfying `pred` when the helper itself calls such a callee on every success path: extracting a helper
+# does not hide the calls it contains from the must-call / dominance rules.
+NEW_HELPERS = {}
+_ACTIVE = []
+
+
+def _helper_must_call(c, pred):
+    bodies = NEW_HELPERS.get(c)
+    if not bodies or c in _ACTIVE or len(_ACTIVE) >= 3:
+        return False
+    _ACTIVE.append(c)
+    try:
+        return all(must_call(b, pred)[0] for b in bodies)
+    finally:
+        _ACTIVE.pop()
+
+
 def call_blocks(body, pred):
-    """[(bb, term)] for call terminators whose normalised callee satisfies pred(callee, term)."""
+    """[(bb, term)] for call terminators whose normalised callee satisfies pred(callee, term) (or is a new helper that must-calls such a callee)."""
     out = []
     for i, blk in enumerate(body['blocks']):
         t = blk['t']
         if t.get('k') == 'call':
             c = mir_callee(t)
-            if c is not None and pred(c, t):
+            if c is not None and (pred(c, t) or (NEW_HELPERS and _helper_must_call(c, pred))):
                 out.append((i, t))
     return out
 
